@@ -769,7 +769,7 @@ func (e *Exec) evalCall(x ECall, env *Env) Val {
 		if v.S == SSlice {
 			ref = ""+e.sbase(v.T)+""
 		}
-		return boolVal("(<= " + ref + " " + e.top(env.st) + ")")
+		return boolVal("(and (<= " + ref + " " + e.top(env.st) + ") (>= " + ref + " (- 1000)))")
 	case "unchangedElems":
 		// unchangedElems("T"): every []T element row that existed at function entry still has its entry contents
 		ts, ok := x.Args[0].(EStr)
@@ -984,6 +984,55 @@ type location struct {
 	ref   string
 	idx   string
 	whole bool
+	off          string // offset of the slice the range was written over (index-space hint for the frame obligations)
+	lo, hi       string // element range [lo,hi) of the row (slice x[a:b] in a modifies clause)
+	qv, qlo, qhi string // quantified location each(i, lo, hi, loc): the inner location for every qv in [qlo,qhi)
+	qcond        string // optional condition of each(i, lo, hi, cond, loc)
+	mono         bool   // location of a monotone (grow-only) ghost set
+}
+
+// inRange is the membership condition of the quantifier of an each-location ("true" for plain locations).
+func (l location) quantRange() string {
+	if l.qv == "" {
+		return "true"
+	}
+	return And("(<= "+l.qlo+" "+l.qv+")", "(< "+l.qv+" "+l.qhi+")", l.qcond)
+}
+
+// exists wraps a condition mentioning the location's bound variable.
+func (l location) exists(cond string) string {
+	if l.qv == "" {
+		return cond
+	}
+	return "(exists ((" + l.qv + " Int)) " + And(l.quantRange(), cond) + ")"
+}
+
+func (l location) forall(cond string) string {
+	if l.qv == "" {
+		return cond
+	}
+	return "(forall ((" + l.qv + " Int)) " + Imp(l.quantRange(), cond) + ")"
+}
+
+// member: the point (r, i) of a two-level heap (or r alone when i == "", or ghost key r) belongs to the location.
+func (l location) member(r, i string) string {
+	var c string
+	switch {
+	case l.kind == "ghost":
+		if l.key == "" {
+			return "true"
+		}
+		c = Eq(r, l.key)
+	case l.whole:
+		return "true"
+	case i == "" || (l.idx == "" && l.lo == ""):
+		c = Eq(r, l.ref)
+	case l.idx != "":
+		c = And(Eq(r, l.ref), Eq(i, l.idx))
+	default:
+		c = And(Eq(r, l.ref), "(<= "+l.lo+" "+i+")", "(< "+i+" "+l.hi+")")
+	}
+	return l.exists(c)
 }
 
 // evalLocs evaluates a modifies clause to one or more locations.
@@ -1026,6 +1075,34 @@ func (e *Exec) evalLocs(x Expr, env *Env) []location {
 			}
 		}
 	}
+	if c, ok := x.(ECall); ok && c.Fun == "each" {
+		// each(i, lo, hi, loc): loc for every i in [lo,hi)
+		if len(c.Args) != 4 && len(c.Args) != 5 {
+			e.unsupported("each(i, lo, hi, [condition,] location)")
+		}
+		id, ok := c.Args[0].(EIdent)
+		if !ok {
+			e.unsupported("each(): first argument is the index variable")
+		}
+		lo := e.evalSpec(c.Args[1], env).T
+		hi := e.evalSpec(c.Args[2], env).T
+		name := Sym(e.Out.FreshName("q$" + id.Name))
+		nb := *env
+		nb.bound = true
+		benv := nb.with(id.Name, Val{T: name, S: SInt, Ty: types.Typ[types.Int]})
+		cond := ""
+		if len(c.Args) == 5 {
+			cond = e.evalSpec(c.Args[3], benv).T
+		}
+		inner := e.evalLocs(c.Args[len(c.Args)-1], benv)
+		for k := range inner {
+			if inner[k].qv != "" {
+				e.unsupported("nested each()")
+			}
+			inner[k].qv, inner[k].qlo, inner[k].qhi, inner[k].qcond = name, lo, hi, cond
+		}
+		return inner
+	}
 	if c, ok := x.(ECall); ok && c.Fun == "mapall" {
 		v := e.evalSpec(c.Args[0], env)
 		if v.Ty != nil {
@@ -1046,7 +1123,7 @@ func (e *Exec) evalLoc(x Expr, env *Env) location {
 	case EIdent:
 		if g, ok := e.P.Spec.Ghosts[x.Name]; ok {
 			_, comps, _, _ := e.ghostComps(g)
-			return location{kind: "ghost", comps: comps}
+			return location{kind: "ghost", comps: comps, mono: g.Monotone}
 		}
 		// a local variable that lives in a cell (captured by a closure, or address taken)
 		var cell *Addr
@@ -1066,7 +1143,7 @@ func (e *Exec) evalLoc(x Expr, env *Env) location {
 			if g, ok := e.P.Spec.Ghosts[id.Name]; ok {
 				if _, shadow := env.vars[id.Name]; !shadow {
 					_, comps, _, _ := e.ghostComps(g)
-					return location{kind: "ghost", comps: comps, key: e.evalSpec(x.I, env).T}
+					return location{kind: "ghost", comps: comps, key: e.evalSpec(x.I, env).T, mono: g.Monotone}
 				}
 			}
 		}
@@ -1084,7 +1161,18 @@ func (e *Exec) evalLoc(x Expr, env *Env) location {
 		if v.Ty != nil {
 			if t, ok := v.Ty.Underlying().(*types.Slice); ok {
 				h, hs := e.elemHeap(t.Elem())
-				return location{kind: "heap", heap: h, hs: hs, ref: ""+e.sbase(v.T)+""}
+				l := location{kind: "heap", heap: h, hs: hs, ref: "" + e.sbase(v.T) + ""}
+				if x.Lo != nil || x.Hi != nil {
+					lo, hi := "0", e.slen(v.T)
+					if x.Lo != nil {
+						lo = e.evalSpec(x.Lo, env).T
+					}
+					if x.Hi != nil {
+						hi = e.evalSpec(x.Hi, env).T
+					}
+					l.lo, l.hi, l.off = elemIdx(e.soff(v.T), lo), elemIdx(e.soff(v.T), hi), e.soff(v.T)
+				}
+				return l
 			}
 		}
 	case ESel:
